@@ -496,7 +496,7 @@ def minimise_panic(prop, sc, api, naming):
             for k in {item_key_of(it) for it in c[w] if it[0] == "clause"}:
                 if [it for it in c[w] if it[0] == "decl" and it[2] == k] != [it for it in c0[w] if it[0] == "decl" and it[2] == k]: return False
         return True
-    for rnd in range(12):
+    for rnd in range(7):
         rems = []
         keys = []
         for it in cur["S"] + cur["O"]:
@@ -506,7 +506,8 @@ def minimise_panic(prop, sc, api, naming):
             for k in keys:
                 rems.append({(w, i) for w in ("S", "O") for i, it in enumerate(cur[w]) if item_key_of(it) == k})
         rems += [{("T", i)} for i in range(len(cur["steps"]))]
-        rems += [{(w, i)} for w in ("S", "O") for i in range(len(cur[w]))]
+        if rnd >= 2 or len(keys) <= 2:      # item level only once whole predicates and steps are gone
+            rems += [{(w, i)} for w in ("S", "O") for i in range(len(cur[w]))]
         cands = [("c%d" % n, apply(cur, r)) for n, r in enumerate(rems)]
         ok = [(n, c) for n, (cid, c) in enumerate(cands) if well_formed(cur, c)]
         if not ok: break
@@ -525,7 +526,7 @@ def minimise_panic(prop, sc, api, naming):
 # ---------------------------------------------------------------- run
 def run(ctx):
     rng = ctx.rng
-    n = ctx.scale(160, 1500)
+    n = ctx.scale(120, 1500)
     os.makedirs(FILES, exist_ok=True)
     scs = [gen_scenario(rng, i, ctx.seed) for i in range(n)]
     # corpus: the repository's own repeated-load programs, an empty text, a directive-only text
@@ -563,6 +564,7 @@ def run(ctx):
     dist = {"apis": {}, "loads_per_epoch": {}, "features": {}, "item_kinds": {}, "code_len_growth_per_reload": {}, "footprint_comparisons": 0,
             "footprint_differences": {}}
     nontriv = set()
+    code_growth = []
     grow_cases = []      # (scenario, api, naming, counter)
     panics = []
     for sc in scs:
@@ -620,7 +622,7 @@ def run(ctx):
                     cur = fps[load_idx[j]]
                     dist["footprint_comparisons"] += 1
                     g = cur["code_len"] - fps[load_idx[j] - 1]["code_len"]
-                    dist["code_len_growth_per_reload"][g] = dist["code_len_growth_per_reload"].get(g, 0) + 1
+                    code_growth.append(g)
                     for c in COUNTERS:
                         if cur[c] != base[c]:
                             k2 = "%s:%s" % (c, api)
@@ -660,7 +662,7 @@ def run(ctx):
                 feat, where = "operators", "operator entries"
             upto = sc["steps"][:int(st) + 1] if st != "" else sc["steps"]
             texts = sorted({s[1] for s in upto if s[0] == "load"})
-            feat += (":two-texts" if len(texts) == 2 else ":one-text") + (":file-identity" if naming == "path" else ":anonymous-identity")
+            feat += ":file-identity" if naming == "path" else ":anonymous-identity"
             by_key.setdefault(feat, []).append((j, st, where))
         for n_shown, (feat, lst) in enumerate(sorted(by_key.items())):
             j, st, where = lst[0]
@@ -675,11 +677,11 @@ def run(ctx):
     t_p = time.time()
     panics.sort(key=lambda p: (len(p[0]["S"]) + len(p[0]["O"]), p[0]["idx"]))
     pseen = set()
-    for sc, api, naming, inp, msgs in panics[:2]:
+    for sc, api, naming, inp, msgs in panics[:1]:
         small = minimise_panic(ctx.prop, sc, api, naming)
         decls = sorted((kinds_of(small["S"]) | kinds_of(small["O"])) & {"dynamic", "discontiguous", "multifile", "op", "initialization"})
-        two = len({s[1] for s in small["steps"] if s[0] == "load"}) == 2
-        key = "reload:panic:%s:%s" % ("+".join(decls) or "static", "two-texts" if two else "one-text")
+        dynext = "dynamic" in decls and ("discontiguous" in decls or "multifile" in decls)
+        key = "reload:panic:%s" % ("dynamic-extensible-predicate" if dynext else "+".join(decls) or "static")
         if key in pseen: continue
         pseen.add(key)
         failures.append({"key": key, "what": "a (re)load panics (%d histories in this run); smallest history found by dropping items" % len(panics),
@@ -720,6 +722,9 @@ def run(ctx):
 
     timing["growth_minimise_s"] = round(time.time() - t_g, 1)
     dist["timing"] = timing
+    if code_growth:
+        dist["code_len_growth_per_reload"] = {"min": min(code_growth), "max": max(code_growth), "mean": round(sum(code_growth) / len(code_growth), 1),
+                                              "reloads_without_growth": sum(1 for g in code_growth if g == 0), "reloads": len(code_growth)}
     samples = []
     for sc in scs[:2] + scs[-2:]:
         samples.append({"S": text_of(sc["S"])[:300], "O": text_of(sc["O"])[:200], "steps": [s[0] + (s[1] if s[0] == "load" else "") for s in sc["steps"]]})
